@@ -24,6 +24,10 @@ def x_obligations(tier):
                                  bound="pre-state: entity present/absent x side-car absent/holding one pair; written pair chosen by the solver from 3 keys x 6 values (incl. 'sid', None, int, non-ASCII)"))
     o.append(Obl("C15-sidecar-kernel", M, "sidecar_kernel", timeout=T, family="C15-sidecar", bound="8 x 8 names with dots at every position, real pathlib"))
     o.append(Obl("C15-sidecar-kernel[shipped]", M, "sidecar_kernel", env={"VF_CONF": "shipped"}, timeout=T, family="C15-sidecar", bound="the shipped spil_data_conf.get_data_json_path, 8 x 8 names, real pathlib"))
+    for conf, pool in [("miniA", "h/a/x;h/s/q1;h/a/x/v1/m;h/s/q1/v1/o/c;h/a/x/v1"),
+                       ("shipped", "hamlet/a/char/ophelia;hamlet/s/sq010/sh0010;hamlet/s/sq010;hamlet/a/char/ophelia/model/v001/w/ma;hamlet/s/sq010/sh0010/anim")]:
+        o.append(Obl(f"C15-attr-readback[{conf}]", M, "attr_readback", env={"VF_CONF": conf, "VF_POOL": pool}, timeout=T, family="C15-read",
+                     bound=f"{conf} data configuration: 5 Sids of types configured with a Getter x 2 keys x 6 values; read through GetFromPaths, sid.get_attr, GetFromAll.get_attr / get_data"))
     o.append(Obl("C15-reach", M, "reach", timeout=60, expect="refute", family="C15-twin"))
     return o
 
